@@ -177,7 +177,26 @@ def int_binop(ctx, op, a, b):
                     k <<= 1
                 return wrap_int(r)
         return bv_binop(ctx, op, a, b)
-    if op in ('BitOr', 'BitXor'):
+    if op == 'BitOr':
+        if isinstance(a, int) and not isinstance(b, int):
+            a, b, ta, tb = b, a, tb, ta
+        if isinstance(b, int) and b >= 0:
+            # a | c = a + sum of the bits of c that are not set in a   (holds for negative a too, two's complement)
+            r = ta
+            k = 1
+            while k <= b:
+                if b & k:
+                    bit = _div(ta, z3.IntVal(k)) % 2
+                    if ctx.check(bit != 1) == z3.unsat:
+                        pass                                  # bit already set on this path
+                    elif ctx.check(bit != 0) == z3.unsat:
+                        r = r + k                             # bit clear on this path
+                    else:
+                        r = r + (1 - bit) * k
+                k <<= 1
+            return wrap_int(r)
+        return bv_binop(ctx, op, a, b)
+    if op == 'BitXor':
         return bv_binop(ctx, op, a, b)
     raise Unsupported('int operator %s' % op)
 
@@ -272,7 +291,27 @@ def seq_concat(a, b):
     a, b = as_sseq(a), as_sseq(b)
     if type(a) is not type(b):
         pyraise(TypeError, "can't concat str and bytes", implicit=True)
-    return _mk_like(a, parts=a.parts + b.parts)
+    r = _mk_like(a, parts=a.parts + b.parts)
+    if isinstance(r, SStr):
+        ha, hb = _hex_src(a), _hex_src(b)
+        if ha is not None and hb is not None:
+            r.hex_src = as_sseq(seq_concat(ha, hb)) if not isinstance(seq_concat(ha, hb), bytes) else SBytes(items=list(seq_concat(ha, hb)))
+    return r
+
+
+def _hex_src(v):
+    """bytes denoted by a lower-case hex string value, if known"""
+    h = getattr(v, 'hex_src', None)
+    if h is not None:
+        return h
+    if isinstance(v, SStr) and v.items is not None and all(isinstance(i, int) for i in v.items) and len(v.items) % 2 == 0:
+        try:
+            t = ''.join(chr(i) for i in v.items)
+            if t == t.lower():
+                return SBytes(items=list(bytes.fromhex(t)))
+        except ValueError:
+            return None
+    return None
 
 
 def seq_len(v):
